@@ -93,6 +93,11 @@ def _expr_cases(tier: str, seed: int) -> List[Dict[str, Any]]:
     # non-finite float constants (a float constant is a float constant)
     for nm, v in (("inf", float("inf")), ("-inf", float("-inf")), ("nan", float("nan"))):
         out.append({"kind": "expr", "id": "extend:const-" + nm, "depth": 1, "only_route": "A", "spec": _d_spec([["extend", {"ops": {"r": {"ast": ["b", "+", ["c", "x"], ["v", v]], "route": "A"}}}]])})
+    # finite float constants whose shortest repr needs up to 17 significant digits, and extreme magnitudes
+    for i, v in enumerate((1 / 3, 0.1 + 0.2, 1e-17, 5e-324, 1.7976931348623157e308, 2.0 ** 53, 123456789.12345678, -2 / 3, 1e22, 1.5e-7)):
+        for op in ("+", "*"):
+            out.append({"kind": "expr", "id": "extend:const-float%d%s" % (i, op), "depth": 1, "only_route": "A", "spec": _d_spec([["extend", {"ops": {"r": {"ast": ["b", op, ["c", "x"], ["v", v]], "route": "A"}}}]])})
+        out.append({"kind": "expr", "id": "select_rows:const-float%d" % i, "depth": 1, "only_route": "A", "spec": _d_spec([["select_rows", {"expr": {"ast": ["b", "<", ["c", "x"], ["v", v]], "route": "A"}}]])})
     # aggregates in project / windowed extend
     for i, a in enumerate(AGG_PROJECT):
         for gb in ([], ["g"], ["g", "k"]):
